@@ -92,6 +92,31 @@ def clause_hydration(prog, rep):
                       "%s:%s" % (f.file, s.get("line")))
 
 
+def clause_hydrate_first(prog, rep):
+    """hydration reads what is in storage into the queue; a manager method that also changes the stored snapshots or the queue hydrates
+    *first*: hydrating after its own write reads that write back as a placeholder entry (timestamp 0) queued ahead of the real one, and the
+    race decision made on it after a restart differs from the one a never-restarted instance makes"""
+    mgr = [f for f in prog.nontest_fns(("mdk_core",)) if last_seg(f.self_adt) == "EpochSnapshotManager" and not f.is_closure()]
+    n = 0
+    for f in mgr:
+        hyd = [c for c in f.live_calls() if any(t.name == "ensure_hydrated" for t in prog.call_targets(c))]
+        if not hyd:
+            continue
+        blocks = frozenset(c.bb for c in hyd)
+        for c in f.live_calls():
+            storage = (c.trait or "").startswith("mdk_storage_traits::") and c.name in ("create_group_snapshot", "release_group_snapshot", "rollback_group_to_snapshot")
+            locks = c.name == "lock" and "Mutex" in (c.self_ty or c.self_adt or "")
+            if not (storage or locks) or c in hyd:
+                continue
+            n += 1
+            ok = c.bb not in A.reach_without_edges(f, 0, set(), blocks) or 0 in blocks
+            rep.check(ok, "hydration-coverage", "%s/hydrate-first/%s" % (f.label(), c.name),
+                      "ensure_hydrated runs before this %s" % ("storage call" if storage else "access to the queue"),
+                      "%s can reach %s without having hydrated the queue first (hydration after the method's own write reads that write back as a "
+                      "placeholder entry ahead of the real one)" % (f.label(), c.name), c.loc())
+    rep.floor("hydration-coverage", "storage calls / queue accesses in hydrating manager methods", n, 4)
+
+
 PARSERS = ("parse", "from_str", "from_str_radix", "from_hex")
 UNWRAPPERS = ("ok", "branch", "unwrap", "expect", "unwrap_or_default", "ok_or", "ok_or_else", "map_err", "unwrap_or", "into_inner")
 
@@ -250,5 +275,6 @@ def run(ctx, rep):
     clause_inventory(prog, rep)
     clause_hydration(prog, rep)
     clause_hydration_sources(prog, rep)
+    clause_hydrate_first(prog, rep)
     clause_queue_storage_agreement(prog, rep)
     clause_self_update_mapping(prog, rep)
